@@ -1128,6 +1128,8 @@ def run(ck, tier, rng):
     # ---- history level
     nh = 600 if tier == "quick" else 5000
     tmp = tempfile.mkdtemp(prefix="c15-")
+    pool = os.path.join(tmp, "pool")
+    os.mkdir(pool)
     try:
         hists = [gen_history(rng, tier, i) for i in range(nh)]
         for rep in range(1 if tier == "quick" else 6):
